@@ -230,7 +230,8 @@ def check_mutex_discipline(chk, rule='R18.6'):
     from . import c17
     from .. import pe as _pe
     ftu = c17.futex_tu(chk)
-    cases = [('wasmMemoryAtomicWait[infinite]', lambda: c17.wait_paths(ftu, True)), ('wasmMemoryAtomicWait[timeout]', lambda: c17.wait_paths(ftu, False))]
+    cases = [('wasmMemoryAtomicWait[infinite]', lambda: c17.wait_paths(ftu, True)), ('wasmMemoryAtomicWait[timeout]', lambda: c17.wait_paths(ftu, False)),
+             ('wasmMemoryAtomicWait[timeout=0]', lambda: c17.wait_paths(ftu, False, 0)), ('wasmMemoryAtomicWait[timeout=1]', lambda: c17.wait_paths(ftu, False, 1))]
     for fut_label, fut in (('no-futex-map', 0), ('futex-map', unk('futex-map'))):
         def notify_paths(fut=fut):
             state = {}
